@@ -93,6 +93,12 @@ def main(argv=None):
         core.say("replay: no violation reproduced")
         return 0
 
+    try:  # stale replay files of earlier runs of this property would only confuse
+        import glob
+        for f in glob.glob(os.path.join(core.REPLAY_DIR, pid + "-*.json")):
+            os.unlink(f)
+    except OSError:
+        pass
     nshards = a.shards or getattr(mod, "SHARDS", {"quick": 1, "thorough": 16}).get(a.tier, 1)
     nshards = max(1, min(nshards, os.cpu_count() or 1))
     if nshards == 1:
